@@ -2,7 +2,7 @@ SPECIFICATION Spec
 CONSTANTS
   MaxLen = 5
   MaxLen2 = 3
-  MaxPair = 4
+  MaxPair = 3
   MaxA2 = 4
 POSTCONDITION Consumed
 CHECK_DEADLOCK FALSE
